@@ -32,7 +32,7 @@ def h12_sim(c, n=2):
     """simulation: a package of n orders through the real SimulatedExecution where (symbolically) some order has been matched,
     lapsed or voided between request and execution"""
     with cm.config_set(simulated=True):
-        fl, (client,), (strategy,) = cm.new_sim()
+        fl, (client,), (strategy,) = cm.new_sim(client_kwargs=dict(transaction_limit=c.choose("transaction_limit", [5000, None])))
         mw = fl._market_middleware[0]
         kind = c.choose("kind", lc.KINDS)
         c.tag("kind", kind.name)
